@@ -202,10 +202,11 @@ func (w *World) gatedBy(fn *ssa.Function, ifs []ifInfo, s Site, c Cond, loopAll 
 }
 
 type GateOpts struct {
-	MinSites    int
-	FailIsError bool // additionally: every return reachable from the failing edge is a failure return
-	AnySite     bool // at least one site must be gated rather than all (rare)
-	LoopAll     bool // the check sits in a loop over elements ("for all x: check(x)"): dominance is not required,
+	MinSites     int
+	FailIsError  bool // additionally: every return reachable from the failing edge is a failure return
+	AnySite      bool // at least one site must be gated rather than all (rare)
+	AnySiteReach bool // the effect must be REACHABLE from the failing edge of the check (best-effort semantics)
+	LoopAll      bool // the check sits in a loop over elements ("for all x: check(x)"): dominance is not required,
 	// only that the effect is unreachable from the failing edge without re-evaluating the check
 }
 
@@ -228,6 +229,39 @@ func (r *Report) Gate(key, fnKey string, e Effect, conds []Cond, o GateOpts) {
 		return
 	}
 	ifs := w.ifs(fn)
+	if o.AnySiteReach {
+		for _, c := range conds {
+			k := fmt.Sprintf("%s|%s|%s|reach", key, fnKey, c.String())
+			dd := fmt.Sprintf("in %s [%s] stays reachable when %s holds", fnKey, e, c.String())
+			n, ok := 0, false
+			for _, ii := range ifs {
+				m, passOnTrue := c.Match(ii.pred)
+				if !m {
+					continue
+				}
+				n++
+				pass := ii.b.Succs[0]
+				if !passOnTrue {
+					pass = ii.b.Succs[1]
+				}
+				reach := reachFrom(pass, map[*ssa.BasicBlock]bool{ii.b: true})
+				for _, s := range sites {
+					if reach[s.Block] {
+						ok = true
+					}
+				}
+			}
+			switch {
+			case n == 0:
+				r.Unres(k, dd, "no condition matches")
+			case ok:
+				r.OK(k, dd, w.FnPos(fn), "reachable")
+			default:
+				r.Bad(k, dd, w.FnPos(fn), "the effect is cut off on that edge")
+			}
+		}
+		return
+	}
 	for _, c := range conds {
 		nOK := 0
 		for i, s := range sites {
@@ -1991,4 +2025,82 @@ func (r *Report) ErrorsNotDropped(key string, pkgPrefixes []string, pats []strin
 		return
 	}
 	r.OK(key+"|scanned", d, "-", fmt.Sprintf("%d fallible call sites examined", n))
+}
+
+// CondCount: fn has exactly n conditional branches (used where "no additional condition" is the rule).
+func (r *Report) CondCount(key, fnKey string, n int) {
+	w := r.W
+	fn := w.Fn(fnKey)
+	d := fmt.Sprintf("%s has exactly %d conditional branch(es)", fnKey, n)
+	k := key + "|" + fnKey
+	if fn == nil {
+		r.Unres(k, d, "function not found")
+		return
+	}
+	got := len(w.ifs(fn))
+	if got == n {
+		r.OK(k, d, w.FnPos(fn), fmt.Sprintf("%d", got))
+	} else {
+		r.Bad(k, d, w.FnPos(fn), fmt.Sprintf("%d conditional branches found", got))
+	}
+}
+
+// FlagOnlyUnderVal: argument #idx of callee in fn is a phi; the constant val flows into it only from blocks behind
+// the pass edge of one of conds.
+func (r *Report) FlagOnlyUnderVal(key, fnKey, callee string, idx int, valAtom string, conds []Cond) {
+	w := r.W
+	fn := w.Fn(fnKey)
+	val := strings.TrimPrefix(valAtom, "const:")
+	d := fmt.Sprintf("in %s argument #%d of %s takes the value %s only under (%v)", fnKey, idx, callee, val, conds)
+	k := key + "|" + fnKey + "|" + callee + "=" + val
+	if fn == nil {
+		r.Unres(k, d, "function not found")
+		return
+	}
+	calls := Calls(fn, callee)
+	if len(calls) != 1 {
+		r.Unres(k, d, fmt.Sprintf("%d calls of %s", len(calls), callee))
+		return
+	}
+	v := seeThrough(argValue(calls[0].Common(), idx))
+	phi, ok := v.(*ssa.Phi)
+	if !ok {
+		if c, isC := v.(*ssa.Const); isC && constString(c) != val {
+			r.OK(k, d, w.Pos(calls[0].Pos()), "argument is a different constant")
+			return
+		}
+		r.Bad(k, d, w.posOr(calls[0].Pos(), fn), "argument is not a merge of constants: "+clip(Render(v).String(), 120))
+		return
+	}
+	cut, n := w.passEdges(fn, conds)
+	if n == 0 {
+		r.Bad(k, d, w.FnPos(fn), "no condition matches")
+		return
+	}
+	reach := reachableCut(fn, cut)
+	nset := 0
+	for i, e := range phi.Edges {
+		c, isC := e.(*ssa.Const)
+		if !isC {
+			r.Bad(k, d, w.FnPos(fn), "non-constant value flows into the argument")
+			return
+		}
+		if constString(c) != val {
+			continue
+		}
+		nset++
+		pred := phi.Block().Preds[i]
+		if ci, ok := cut[pred]; ok && pred.Succs[ci] == phi.Block() && pred.Succs[1-ci] != phi.Block() {
+			continue
+		}
+		if reach[pred] {
+			r.Bad(k, d, w.posOr(lastPos(pred), fn), "the value flows in on a path that passes none of the checks")
+			return
+		}
+	}
+	if nset == 0 {
+		r.Unres(k, d, "value never flows in")
+		return
+	}
+	r.OK(k, d, w.Pos(calls[0].Pos()), fmt.Sprintf("%d edge(s) behind %d check(s)", nset, n))
 }
